@@ -109,3 +109,25 @@ Proof.
   split; [left; reflexivity|]. split; [vm_compute; tauto|].
   vm_compute. intros H. discriminate H.
 Qed.
+
+(* ---- sensitivity: the Copy before commit 620d5e0 (NOT the current code) ----
+   `*nu = *u; nu.Perms = u.Perms.Copy(); copy(nu.ChannelList, u.ChannelList)`: source and
+   destination of the copy are the same array, nothing is allocated for the list. The
+   disjointness theorem is false for it: the snapshot reaches the tracked array. *)
+Definition user_copy_old (h : heap) (o : nat) : res (heap * nat) :=
+  u <- get_user h o ;;
+  pc <- userperms_copy h (hu_perms u) ;;
+  let '(h1, p') := pc in
+  Ok (halloc h1 (CUser (hu_set_perms u (Some p')))).
+
+Definition ex_old : heap * nat :=
+  match user_copy_old (w_heap ex_world) 10 with Ok r => r | Panic => ([], 0) end.
+
+Example old_copy_not_disjoint :
+  exists uid h' o' x,
+    lookup_user_h ex_world (bs "alice") = Some uid /\ user_copy_old (w_heap ex_world) uid = Ok (h', o') /\
+    In x (reach h' o') /\ In x (live_objs h' (w_st ex_world)).
+Proof.
+  exists 10, (fst ex_old), (snd ex_old), 11.
+  split; [vm_compute; reflexivity|]. split; [vm_compute; reflexivity|]. split; vm_compute; tauto.
+Qed.
